@@ -267,27 +267,4 @@ theorem dec_enc (v : CVal) (rest : Bytes) (hv : validB maxLen v = true) :
   have := depth_le v
   simp; omega
 
-/-- Top-level decode into `[]any` of an encoded list. -/
-theorem decTop_enc (l : List CVal) (hv : validB maxLen (.list l) = true) :
-    decTop (enc (.list l)) = .ok l := by
-  simp [validB] at hv
-  have hlen : l.length < 4294967296 := by have := hv.1; unfold maxLen at this; exact this
-  have hdl := depthList_le l
-  have key : ∀ fuel, depthList l < fuel → decItems (decF fuel) l.length (encList l) = .ok (l, []) := by
-    intro fuel hf
-    have := decItems_enc l fuel [] hv.2 hf
-    simpa using this
-  simp only [enc]
-  unfold arrHdr
-  split
-  · rename_i h16
-    have hm : (144 + l.length) % 256 = 144 + l.length := Nat.mod_eq_of_lt (by omega)
-    simp [decTop, hm, classify_fixarr h16]
-    rw [key _ (by omega)]
-  · split
-    · simp [decTop, classify, readBE_append (show l.length < 256 ^ 2 by omega)]
-      rw [key _ (by omega)]
-    · simp [decTop, classify, readBE_append (show l.length < 256 ^ 4 by omega)]
-      rw [key _ (by omega)]
-
 end Nexus.Codec.MsgPack
